@@ -25,15 +25,26 @@ fn main() {
     let main_thread = std::thread::current().id();
     std::panic::set_hook(Box::new(move |info| {
         // a panic of the harness itself (main thread) is reported; caught ones in worker threads are not
-        if std::thread::current().id() == main_thread {
-            if std::env::var("MVH_PANIC_TRACE").is_ok() {
-                eprintln!("mvh: {info}");
-            }
-        } else if let Ok(mut l) = util::LAST_PANIC.lock() {
+        if std::thread::current().id() == main_thread && std::env::var("MVH_PANIC_TRACE").is_ok() {
+            eprintln!("mvh: {info}");
+        }
+        if let Ok(mut l) = util::LAST_PANIC.lock() {
             *l = info.to_string();
         }
     }));
     let mut out = util::Out::new(dir);
+    out.home = match stream {
+        "hash" | "id" => "C19",
+        "closest" => "C11",
+        "rtable" => "C12",
+        "server" => "C03",
+        "api" => "C16",
+        "codec" => "C10",
+        "socket" => "C09",
+        "putq" => "C08",
+        "net" | "mnet" => "C01",
+        _ => "C05",
+    };
     match stream {
         "hash" => streams::hash::run(&mut out, seed, thorough, replay),
         "id" => streams::id::run(&mut out, seed, thorough, replay),
